@@ -190,69 +190,87 @@ def keyless(t, job, part):
             if not advertised and ok: part.violation(f'{fn}|{mech}|{why}|accepted', f'{fn}({mech}) generated a key although the mechanism is {why}', {'conf': conf})
             if advertised and live and not ok and not (mech == 'CKM_DES_KEY_GEN'): part.observe('positive control refused', {'cell': (conf, fn, mech), 'rv': r['rvname']})
 
-AUTH_KEYS = (('RSApriv', 'CKM_SHA256_RSA_PKCS', 'CKM_RSA_PKCS'), ('DSApriv', 'CKM_DSA_SHA1', None), ('ECpriv', 'CKM_ECDSA', None), ('EDpriv', 'CKM_EDDSA', None))
+AUTH_KEYS = (('RSA', 'CKM_SHA256_RSA_PKCS', 'CKM_RSA_PKCS'), ('DSA', 'CKM_DSA_SHA1', None), ('EC', 'CKM_ECDSA', None), ('ED', 'CKM_EDDSA', None))
+AUTH_OPS = ('sign', 'sign-multipart', 'signfinal-alone', 'decrypt')
+AUTH_HIST = ('none', 'ctx-login-wrong-pin', 'ctx-login-so-pin', 'second-operation-after-one-ctx-login', 'logout+ctx-login', 'logout+ctx-login-any-bytes', 'logout+login+no-ctx-login',
+             'ctx-login-on-another-session', 'ctx-login-before-init')
 def always_auth(t, job, part):
-    """CKA_ALWAYS_AUTHENTICATE: no output from C_Sign / C_SignFinal / C_Decrypt before C_Login(CKU_CONTEXT_SPECIFIC) succeeded for THIS operation"""
-    x = t.x; ck = t.ck; art = job['art']; pin = K.USER_PIN.hex(); CS = ck.CKU_CONTEXT_SPECIFIC
-    def bad(fn, kind, mech, seq, r, data=None):
-        part.violation(f'{fn}|always-authenticate,key={K.ktype(kind)}/private,{mech}|{seq}|output', f'{fn} produced output with a CKA_ALWAYS_AUTHENTICATE key ({seq})', {'rv': r['rvname'], 'out': data, 'seq': seq, 'kind': kind})
-    def produced(r): return r['rv'] == 0 and r.get('out', {}).get('len', 0) > 0 and not r['out'].get('null')
+    """CKA_ALWAYS_AUTHENTICATE: (key kind, store) x (output operation) x (authentication history between the *Init and the output call).  In every listed history the
+    LAST login event on the session after the *Init is NOT a successful, unconsumed C_Login(CKU_CONTEXT_SPECIFIC): the output call must fail and leave its buffer untouched.
+    Positive control: *Init, context-specific login with the right PIN, output call -> a signature the public key verifies / the original plaintext."""
+    x = t.x; ck = t.ck; art = job['art']; UPIN = K.USER_PIN.hex(); SOPIN = K.SO_PIN.hex(); CS = ck.CKU_CONTEXT_SPECIFIC; n = [0]
+    def relogin():
+        r = x.call('C_Login', s=t.s, user=1, pin=UPIN); return r['rvname'] in ('CKR_OK', 'CKR_USER_ALREADY_LOGGED_IN')
+    def mkkey(kind, on_token, aa, label):
+        tm = K.resolve(ck, K.template(kind, token=on_token, private=True, extra={'CKA_ALWAYS_AUTHENTICATE': aa}, label=label))
+        r = x.call('C_CreateObject', s=t.s, tmpl=x.T(tm)); return r['h'] if r['rv'] == 0 else None
+    def cleanup(label):
+        relogin()
+        for h in x.findall(t.s, [('CKA_LABEL', label)])[1]: x.call('C_DestroyObject', s=t.s, o=h)
+    def output(A, op, mech, msg, ct):
+        """the output call(s) of `op` on session A -> (fn that could have produced output, reply, produced?, buffer touched?)"""
+        if op == 'sign': fn = 'C_Sign'; r = x.call(fn, s=A, data=msg, buf=4096)
+        elif op == 'sign-multipart': x.call('C_SignUpdate', s=A, data=msg); fn = 'C_SignFinal'; r = x.call(fn, s=A, buf=4096)
+        elif op == 'signfinal-alone': fn = 'C_SignFinal'; r = x.call(fn, s=A, buf=4096)
+        else: fn = 'C_Decrypt'; r = x.call(fn, s=A, data=ct, buf=4096)
+        o = r.get('out', {}); return fn, r, (r['rv'] == 0 and o.get('len', 0) > 0), o.get('changed', 0) != 0
+    def start(A, op, key, mech, kind):
+        fn = 'C_DecryptInit' if op == 'decrypt' else 'C_SignInit'; return x.call(fn, s=A, mech=MT.params(x, ck, mech, kind), key=key)['rv'] == 0
     for on_token in (False, True):
-        for kind, smech, dmech in AUTH_KEYS:
-            key = t.mk(kind, token=on_token, private=True, extra={'CKA_ALWAYS_AUTHENTICATE': True})
-            ctl = t.mk(kind, token=on_token, private=True, extra={'CKA_ALWAYS_AUTHENTICATE': False})
-            if key is None or ctl is None: part.inconc(f'cannot create always-authenticate {kind}'); continue
-            msg = MT.message(smech).hex(); m = MT.params(x, ck, smech, kind); where = 'token' if on_token else 'session'
-            def init(k=key, fn='C_SignInit', mm=m):
-                r = x.call(fn, s=t.so, mech=mm, key=k)
-                if r['rvname'] == 'CKR_OPERATION_ACTIVE': t.reopen(); r = x.call(fn, s=t.so, mech=mm, key=k)
-                return r['rv'] == 0
-            def cell(seq, ok=True): part.case(('auth', where, kind, seq), nontrivial=ok); part.count('auth_cells')
-            # control: without the attribute the key signs
-            c_ok = init(ctl) and produced(x.call('C_Sign', s=t.so, data=msg, buf=4096))
-            if not c_ok: part.observe('positive control refused', {'cell': ('auth-control', where, kind)}); t.reopen()
-            # A: one-shot before any context login
-            if init():
-                r = x.call('C_Sign', s=t.so, data=msg, buf=4096); cell('sign-before-login', c_ok)
-                if produced(r): bad('C_Sign', kind, smech, 'before-context-login', r, r['out'].get('data'))
-            # B: wrong PIN, then one-shot
-            if init():
-                l = x.call('C_Login', s=t.so, user=CS, pin=b'wrong-pin-000'.hex()); r = x.call('C_Sign', s=t.so, data=msg, buf=4096); cell('sign-after-failed-login', c_ok and l['rv'] != 0)
-                if l['rv'] != 0 and produced(r): bad('C_Sign', kind, smech, 'after-failed-context-login', r, r['out'].get('data'))
-            # C: multi-part before login
-            if init():
-                u = x.call('C_SignUpdate', s=t.so, data=msg); r = x.call('C_SignFinal', s=t.so, buf=4096); cell('signfinal-before-login', c_ok)
-                if produced(r): bad('C_SignFinal', kind, smech, 'before-context-login', r, r['out'].get('data'))
-                if r['rvname'] in ('CKR_BUFFER_TOO_SMALL',) or u['rvname'] == 'CKR_FUNCTION_NOT_SUPPORTED': t.reopen()
-            # D: login in ANOTHER session's operation does not authenticate this one
-            s2 = x.call('C_OpenSession', slot=t.slot)['h']
-            if init() and x.call('C_SignInit', s=s2, mech=m, key=key)['rv'] == 0:
-                l = x.call('C_Login', s=s2, user=CS, pin=pin); r = x.call('C_Sign', s=t.so, data=msg, buf=4096); cell('sign-after-login-in-other-session', c_ok and l['rv'] == 0)
-                if produced(r): bad('C_Sign', kind, smech, 'context-login-in-other-session', r, r['out'].get('data'))
-            x.call('C_CloseSession', s=s2)
-            # E: proper login -> output (positive control), then a NEW operation needs a new login
-            if init():
-                l = x.call('C_Login', s=t.so, user=CS, pin=pin); r = x.call('C_Sign', s=t.so, data=msg, buf=4096); pc = l['rv'] == 0 and produced(r)
-                if not pc: part.observe('positive control refused', {'cell': ('auth', where, kind, 'sign-after-login'), 'login': l['rvname'], 'rv': r['rvname']}); t.reopen()
-                else: part.count('positive_controls_ok')
-                if init():
-                    r = x.call('C_Sign', s=t.so, data=msg, buf=4096); cell('second-operation-without-new-login', pc)
-                    if produced(r): bad('C_Sign', kind, smech, 'second-operation-after-one-login', r, r['out'].get('data'))
-            # F: decrypt (RSA)
-            if dmech:
-                ct = art.get(('encrypt', dmech, 'RSA')); dm = MT.params(x, ck, dmech, kind)
-                if ct and init(key, 'C_DecryptInit', dm):
-                    r = x.call('C_Decrypt', s=t.so, data=ct, buf=4096); cell('decrypt-before-login')
-                    if produced(r): bad('C_Decrypt', kind, dmech, 'before-context-login', r, r['out'].get('data'))
-                if ct and init(key, 'C_DecryptInit', dm):
-                    l = x.call('C_Login', s=t.so, user=CS, pin=pin); r = x.call('C_Decrypt', s=t.so, data=ct, buf=4096)
-                    if l['rv'] == 0 and produced(r) and r['out'].get('data') == MT.plaintext(dmech).hex(): part.count('positive_controls_ok')
-                    else: part.observe('positive control refused', {'cell': ('auth', where, kind, 'decrypt-after-login'), 'rv': r['rvname']}); t.reopen()
-                    # a sign operation started after an authenticated decrypt is not authenticated
-                    if init():
-                        r = x.call('C_Sign', s=t.so, data=msg, buf=4096); cell('sign-after-authenticated-decrypt')
-                        if produced(r): bad('C_Sign', kind, smech, 'after-authenticated-other-operation', r, r['out'].get('data'))
-            for o in (key, ctl): x.call('C_DestroyObject', s=t.s, o=o)
+        where = 'token' if on_token else 'session'
+        for alg, smech, dmech in AUTH_KEYS:
+            kind = alg + 'priv'; pub = t.mk(alg + 'pub')
+            for op in AUTH_OPS:
+                mech = dmech if op == 'decrypt' else smech
+                if mech is None: continue
+                msg = MT.message(mech).hex(); ct = art.get(('encrypt', mech, 'RSA')) if op == 'decrypt' else None
+                if op == 'decrypt' and not ct: part.observe('no ciphertext artefact for the always-authenticate decrypt cells', {'mech': mech}); continue
+                # ---- positive control: right PIN -> verifiable output (this is what makes the cells of this (kind, store, operation) non-trivial)
+                n[0] += 1; label = b'aa-%d' % n[0]; key = mkkey(kind, on_token, True, label); A = x.call('C_OpenSession', slot=t.slot)['h']; pc = False
+                if key is None: part.inconc(f'cannot create always-authenticate {kind}'); x.call('C_CloseSession', s=A); continue
+                if start(A, op, key, mech, kind):
+                    l = x.call('C_Login', s=A, user=CS, pin=UPIN); fn, r, got, _ = output(A, op, mech, msg, ct)
+                    if l['rv'] == 0 and got:
+                        if op == 'decrypt': pc = r['out'].get('data') == MT.plaintext(mech).hex()
+                        elif pub and x.call('C_VerifyInit', s=A, mech=MT.params(x, ck, mech, kind), key=pub)['rv'] == 0:
+                            pc = x.call('C_Verify', s=A, data=('' if op == 'signfinal-alone' else msg), sig=r['out']['data'])['rv'] == 0
+                x.call('C_CloseSession', s=A); cleanup(label)
+                if pc: part.count('positive_controls_ok')
+                elif op in ('sign', 'decrypt') or (op == 'sign-multipart' and alg in ('RSA', 'DSA')): part.observe('positive control refused', {'cell': ('auth', where, kind, op, 'ctx-login-right-pin')})
+                # ---- the histories
+                for hist in AUTH_HIST:
+                    n[0] += 1; label = b'aa-%d' % n[0]; key = mkkey(kind, on_token, True, label); A = x.call('C_OpenSession', slot=t.slot)['h']; B = None; ev = []; pre = True
+                    if key is None: part.inconc(f'cannot create always-authenticate {kind}'); x.call('C_CloseSession', s=A); continue
+                    if hist == 'ctx-login-before-init': ev.append(('ctx-login', x.call('C_Login', s=A, user=CS, pin=UPIN)['rvname']))
+                    if not start(A, op, key, mech, kind): pre = False
+                    elif hist == 'ctx-login-wrong-pin': l = x.call('C_Login', s=A, user=CS, pin=b'wrong-pin-000'.hex()); ev.append(('ctx-login-wrong', l['rvname'])); pre = l['rv'] != 0
+                    elif hist == 'ctx-login-so-pin': l = x.call('C_Login', s=A, user=CS, pin=SOPIN); ev.append(('ctx-login-so-pin', l['rvname'])); pre = l['rv'] != 0
+                    elif hist == 'second-operation-after-one-ctx-login':
+                        l = x.call('C_Login', s=A, user=CS, pin=UPIN); _, r1, got1, _ = output(A, op, mech, msg, ct); ev.append(('ctx-login', l['rvname'], 'first-operation', r1['rvname']))
+                        if x.call('C_SignInit' if op != 'decrypt' else 'C_DecryptInit', s=A, mech=MT.params(x, ck, mech, kind), key=key)['rvname'] == 'CKR_OPERATION_ACTIVE':     # the first operation did not finish (e.g. no multi-part): not this cell
+                            pre = False
+                        pre = pre and l['rv'] == 0 and got1
+                    elif hist in ('logout+ctx-login', 'logout+ctx-login-any-bytes'):
+                        lo = x.call('C_Logout', s=A); l = x.call('C_Login', s=A, user=CS, pin=(UPIN if hist == 'logout+ctx-login' else b'\x00\xff any bytes'.hex())); ev.append(('logout', lo['rvname'], 'ctx-login', l['rvname'])); pre = lo['rv'] == 0 and l['rv'] != 0
+                    elif hist == 'logout+login+no-ctx-login':
+                        lo = x.call('C_Logout', s=A); l = x.call('C_Login', s=A, user=1, pin=UPIN); ev.append(('logout', lo['rvname'], 'login', l['rvname'])); pre = lo['rv'] == 0 and l['rv'] == 0
+                    elif hist == 'ctx-login-on-another-session':
+                        B = x.call('C_OpenSession', slot=t.slot)['h']; sb = x.call('C_SignInit', s=B, mech=MT.params(x, ck, smech, kind), key=key)
+                        l = x.call('C_Login', s=B, user=CS, pin=UPIN); ev.append(('other-session-init', sb['rvname'], 'ctx-login-there', l['rvname'])); pre = l['rv'] == 0
+                    fn, r, got, touched = output(A, op, mech, msg, ct) if pre or hist in ('none', 'ctx-login-before-init') else ('-', {'rvname': 'skipped', 'rv': 1}, False, False)
+                    part.case(('auth', where, kind, op, hist), nontrivial=bool(pc and pre)); part.count('auth_cells'); part.count('auth_cells_nontrivial', int(bool(pc and pre)))
+                    if r['rv'] == 0 or got or touched:
+                        part.violation(f'{fn}|always-authenticate,key={K.ktype(kind)}/private,{mech},op={op}|{hist}|{"output" if (got or r["rv"] == 0) else "buffer-written"}',
+                                       f'{fn} {"produced output" if got else "returned CKR_OK / wrote its buffer"} on a CKA_ALWAYS_AUTHENTICATE key although the last login event after the *Init was not a successful, unconsumed context-specific login ({hist})',
+                                       {'kind': kind, 'store': where, 'op': op, 'mechanism': mech, 'history': hist, 'login_events': ev, 'rv': r['rvname'], 'out': r.get('out')})
+                    for h in (A, B):
+                        if h: x.call('C_CloseSession', s=h)
+                    cleanup(label)
+            # control: without the attribute the key signs with no context login at all
+            n[0] += 1; label = b'aa-%d' % n[0]; ctl = mkkey(kind, on_token, False, label); A = x.call('C_OpenSession', slot=t.slot)['h']
+            if ctl is None or not start(A, 'sign', ctl, smech, kind) or not output(A, 'sign', smech, MT.message(smech).hex(), None)[2]: part.observe('positive control refused', {'cell': ('auth-control', where, kind)})
+            x.call('C_CloseSession', s=A); cleanup(label)
+            if pub: x.call('C_DestroyObject', s=t.s, o=pub)
 
 def pick_removed(rnd, adv):
     """a seeded set of mechanisms to remove: one forced per entry-point group + random others, config line <= ~900 chars"""
@@ -309,5 +327,6 @@ def run(ctx):
                         'slots.mechanisms lists are limited to ~850 characters because SimpleConfigLoader reads lines of at most 1023 bytes',
                         'the expected advertised list of a configuration is computed from the configuration TEXT and the list read under ALL (unknown names are ignored, softhsm2.conf(5)); an advertised list that differs from it in EITHER direction is reported (removed-but-advertised fails open; kept-but-missing means the list is not the one slots.mechanisms describes)',
                         'quick: the four unknown-name configurations run the key-less entry points, the list comparison and the table for 11 of the 27 key kinds; exhaustive: true refers to the ALL / negative / positive configurations',
+                        'CKA_ALWAYS_AUTHENTICATE: demanded is "no output unless the last login event on the session after the *Init was a successful, not yet consumed C_Login(CKU_CONTEXT_SPECIFIC)" for the enumerated histories; a failed context login AFTER a successful one is not enumerated (the statement says "before a successful context-specific login")',
                         'C_SignRecoverInit / C_VerifyRecoverInit are unsupported by the library (CKR_FUNCTION_NOT_SUPPORTED) and outside the 7 keyed kinds']
 if __name__ == '__main__': main('C07', run, min_evaluations=20000, min_distinct=2000)
